@@ -29,6 +29,272 @@ def lean_str_list(xs):
     return "[" + ", ".join('"%s"' % x for x in xs) + "]"
 
 
+# ---- a small statement walker for the arms of Protocol::consume -----------------------------------------
+_LOG_MACROS = ("debug!", "trace!", "error!", "warn!", "info!")
+
+
+def _match(text, i, open_c, close_c):
+    """index just behind the bracket that closes the one at text[i]"""
+    depth = 0
+    j = i
+    while j < len(text):
+        c = text[j]
+        if c == '"':
+            j += 1
+            while j < len(text) and text[j] != '"':
+                j += 2 if text[j] == "\\" else 1
+        elif c == open_c:
+            depth += 1
+        elif c == close_c:
+            depth -= 1
+            if depth == 0:
+                return j + 1
+        j += 1
+    return -1
+
+
+def _strip_log_macros(text):
+    out, i = [], 0
+    while i < len(text):
+        hit = None
+        for m in _LOG_MACROS:
+            if text.startswith(m + "(", i) and (i == 0 or not (text[i - 1].isalnum() or text[i - 1] == "_")):
+                hit = m
+                break
+        if hit:
+            j = _match(text, i + len(hit), "(", ")")
+            if j < 0:
+                return None
+            i = j
+        else:
+            out.append(text[i])
+            i += 1
+    return "".join(out)
+
+
+def _split_items(block, die, where):
+    """block text (without its outer braces) -> [('stmt', text) | ('if', cond, then_items, else_items or None)]"""
+    items, i, n = [], 0, len(block)
+    while i < n:
+        while i < n and block[i] in " \t\n;":
+            i += 1
+        if i >= n:
+            break
+        if re.match(r"if\b", block[i:]):
+            # condition: up to the `{` at bracket depth 0
+            j, depth = i + 2, 0
+            while j < n and not (block[j] == "{" and depth == 0):
+                if block[j] in "([":
+                    depth += 1
+                elif block[j] in ")]":
+                    depth -= 1
+                j += 1
+            if j >= n:
+                die(f"gen_codec_dispatch: {where}: `if` without a block")
+            cond = " ".join(block[i + 2:j].split())
+            k = _match(block, j, "{", "}")
+            then_items = _split_items(block[j + 1:k - 1], die, where)
+            else_items = None
+            m = re.match(r"\s*else\s*\{", block[k:])
+            if m:
+                e0 = k + m.end() - 1
+                e1 = _match(block, e0, "{", "}")
+                else_items = _split_items(block[e0 + 1:e1 - 1], die, where)
+                k = e1
+            elif re.match(r"\s*else\b", block[k:]):
+                die(f"gen_codec_dispatch: {where}: `else if` is not understood")
+            items.append(("if", cond, then_items, else_items))
+            i = k
+        else:
+            j, depth = i, 0
+            while j < n:
+                c = block[j]
+                if c == '"':
+                    j += 1
+                    while j < n and block[j] != '"':
+                        j += 2 if block[j] == "\\" else 1
+                elif c in "([{":
+                    depth += 1
+                elif c in ")]}":
+                    depth -= 1
+                elif c == ";" and depth == 0:
+                    break
+                j += 1
+            st = block[i:j]
+            if re.search(r"\b(match|while|for|loop)\b", st):
+                die(f"gen_codec_dispatch: {where}: control flow other than `if` / `?` / `return` is not understood: {st[:60]!r}")
+            items.append(("stmt", st))
+            i = j + 1
+    return items
+
+
+_TRY_CLASS = {"new": "ser", "into_segment": "ser", "open": "io", "metadata": "io"}
+
+
+def _events(text, die, where):
+    """adapter calls (with `?` suffix when the result goes through `?`), other `?` points, outcomes - textual order
+    = evaluation order inside one statement"""
+    ev = []
+    tok = re.compile(r"(?<![\w.])(?:self\s*\.\s*)?adapter\s*\.\s*(\w+)\(|Msg::new\(\s*Type::(\w+)|Consumed::Response\(\s*(resp\b)?"
+                     r"|Consumed::(None|Disconnect)\b|Consumed::(Attachment)\(|return Err\(Error::(\w+)\)|(add_attachment)\(|\?")
+    for t in tok.finditer(text):
+        if t.group(1):
+            close = _match(text, t.end() - 1, "(", ")")
+            q = close >= 0 and text[close:close + 1] == "?"
+            ev.append((t.start(), "call", t.group(1) + ("?" if q else "")))
+        elif t.group(2):
+            ev.append((t.start(), "new", t.group(2)))
+        elif t.group(0).startswith("Consumed::Response("):
+            ev.append((t.start(), "response", "resp" if t.group(3) else "inline"))
+        elif t.group(4):
+            ev.append((t.start(), "outcome", t.group(4)))
+        elif t.group(5):
+            ev.append((t.start(), "outcome", "Attachment"))
+        elif t.group(6):
+            ev.append((t.start(), "return", "Err:" + t.group(6)))
+        elif t.group(7):
+            ev.append((t.start(), "att", ""))
+        else:
+            # a `?`: behind which call?
+            j = t.start() - 1
+            if j >= 0 and text[j] == ")":
+                depth, k = 0, j
+                while k >= 0:
+                    if text[k] == ")":
+                        depth += 1
+                    elif text[k] == "(":
+                        depth -= 1
+                        if depth == 0:
+                            break
+                    k -= 1
+                m = re.search(r"(\w+)\s*$", text[:k])
+                callee = m.group(1) if m else "?"
+                if re.search(r"adapter\s*\.\s*" + re.escape(callee) + r"\s*$", text[:k]):
+                    continue  # recorded with the call
+                if callee not in _TRY_CLASS:
+                    die(f"gen_codec_dispatch: {where}: `?` behind `{callee}(..)`: error class not known")
+                ev.append((t.start(), "try", _TRY_CLASS[callee] + ":" + callee))
+            else:
+                die(f"gen_codec_dispatch: {where}: a `?` that does not follow a call")
+    return [(k, v) for _, k, v in sorted(ev)]
+
+
+def _paths(items, die, where):
+    """-> list of (conds, calls, others, outcome or None, ended)"""
+    paths = [([], [], [], None, False, {"new": None, "att": False})]
+
+    def run_events(p, evs):
+        conds, calls, others, outc, ended, st = p
+        calls, others, st = list(calls), list(others), dict(st)
+        for k, v in evs:
+            if ended:
+                break
+            if k == "call":
+                calls.append(v)
+            elif k == "try":
+                others.append(v)
+            elif k == "new":
+                st["new"] = v
+                st["pending_inline"] = v if st.get("want_inline") else st.get("pending_inline")
+                if st.get("want_inline"):
+                    outc = "Response:" + v
+                    st["want_inline"] = False
+            elif k == "att":
+                st["att"] = True
+            elif k == "response":
+                if v == "resp":
+                    if st["new"] is None:
+                        die(f"gen_codec_dispatch: {where}: Consumed::Response(resp) without a Msg::new on the path")
+                    outc = "Response:" + st["new"] + ("+attachment" if st["att"] else "")
+                else:
+                    st["want_inline"] = True
+            elif k == "outcome":
+                outc = v
+            elif k == "return":
+                outc, ended = v, True
+        return (conds, calls, others, outc, ended, st)
+
+    for it in items:
+        new_paths = []
+        for p in paths:
+            if p[4]:
+                new_paths.append(p)
+                continue
+            if it[0] == "stmt":
+                new_paths.append(run_events(p, _events(it[1], die, where)))
+            else:
+                _, cond, then_items, else_items = it
+                p1 = run_events(p, _events(cond, die, where))
+                for label, sub in ((cond, then_items), ("!(" + cond + ")", else_items)):
+                    base = (p1[0] + [label], p1[1], p1[2], p1[3], p1[4], p1[5])
+                    if sub is None:
+                        new_paths.append(base)
+                        continue
+                    subs = [base]
+                    for sit in sub:
+                        nxt = []
+                        for sp in subs:
+                            if sp[4]:
+                                nxt.append(sp)
+                            elif sit[0] == "stmt":
+                                nxt.append(run_events(sp, _events(sit[1], die, where)))
+                            else:
+                                # nested if: recurse through a one-item walk
+                                for q in _paths_from(sp, [sit], die, where):
+                                    nxt.append(q)
+                        subs = nxt
+                    new_paths.extend(subs)
+        paths = new_paths
+    return paths
+
+
+def _paths_from(start, items, die, where):
+    saved = start
+    res = _paths(items, die, where)
+    out = []
+    for conds, calls, others, outc, ended, st in res:
+        st2 = dict(saved[5]); st2.update({k: v for k, v in st.items() if v})
+        out.append((saved[0] + conds, saved[1] + calls, saved[2] + others, outc if outc is not None else saved[3], ended, st2))
+    return out
+
+
+def _bool_paths(items, die, where):
+    """paths of a function whose exits are `return true|false;` and a tail `true|false`: [(conds, value)]"""
+    def walk(items, conds):
+        # returns (finished paths, open cond-lists that fell through)
+        done, open_ = [], [conds]
+        for it in items:
+            if not open_:
+                break
+            if it[0] == "stmt":
+                m = re.fullmatch(r"\s*(?:return\s+)?(true|false)\s*", it[1])
+                if m:
+                    for c in open_:
+                        done.append((c, m.group(1) == "true"))
+                    open_ = []
+                elif re.search(r"\breturn\b", it[1]):
+                    die(f"gen_codec_dispatch: {where}: return of something other than a literal")
+            else:
+                _, cond, then_items, else_items = it
+                nxt = []
+                for c in open_:
+                    d1, o1 = walk(then_items, c + [cond])
+                    done += d1
+                    nxt += o1
+                    if else_items is None:
+                        nxt.append(c + ["!(" + cond + ")"])
+                    else:
+                        d2, o2 = walk(else_items, c + ["!(" + cond + ")"])
+                        done += d2
+                        nxt += o2
+                open_ = nxt
+        return done, open_
+    done, open_ = walk(items, [])
+    if open_:
+        die(f"gen_codec_dispatch: {where}: a path without a boolean result")
+    return done
+
+
 def generate(repo_root, die):
     def src(rel):
         p = os.path.join(repo_root, rel)
@@ -122,9 +388,68 @@ def generate(repo_root, die):
     n_all = len(re.findall(r"^\t\t\tMessage::\w+", body, flags=re.M))
     if n_all != len(carms):
         die(f"gen_codec_dispatch: Protocol::consume has {n_all} arms, {len(carms)} understood")
+    # ---- the same arms walked STATEMENT by statement: every path through an arm ------------------------------
+    types_rs = src("p2p/src/types.rs")
+    cpaths = []
+    for i, (pos, name) in enumerate(starts):
+        end = starts[i + 1][0] if i + 1 < len(starts) else len(body)
+        arm = _strip_comments(body[pos:end])
+        m2 = re.match(r"\t\t\tMessage::\w+\([^)]*\) => ", arm)
+        if not m2:
+            die(f"gen_codec_dispatch: Protocol::consume arm {name}: head not understood")
+        rest = arm[m2.end():].strip()
+        if rest.startswith("{"):
+            k = _match(rest, 0, "{", "}")
+            inner = rest[1:k - 1]
+        else:
+            inner = rest.rstrip(",")
+        inner = _strip_log_macros(inner)
+        if inner is None:
+            die(f"gen_codec_dispatch: Protocol::consume arm {name}: unbalanced log macro")
+        items = _split_items(inner, die, f"Protocol::consume arm {name}")
+        seen, plist = set(), []
+        for conds, calls, others, outc, ended, st in _paths(items, die, f"Protocol::consume arm {name}"):
+            if outc is None:
+                die(f"gen_codec_dispatch: Protocol::consume arm {name}: a path without outcome")
+            key = (tuple(calls), tuple(others), outc)
+            if key in seen:
+                continue
+            seen.add(key)
+            plist.append((conds, calls, others, outc))
+        cpaths.append((name, plist))
+    # consistency with the flat table: every call / outcome of a path is in the arm's flat lists
+    for (name, calls, outcomes), (_, plist) in zip(carms, cpaths):
+        for conds, pc, others, outc in plist:
+            if any(c.rstrip("?") not in calls for c in pc) or outc not in outcomes:
+                die(f"gen_codec_dispatch: Protocol::consume arm {name}: path {pc} -> {outc} disagrees with the flat table {calls} -> {outcomes}")
+    # which adapter methods return Result<_, chain::Error> (types.rs, trait ChainAdapter)
+    mt = re.search(r"pub trait ChainAdapter[^{]*\{(.*?)\n\}", types_rs, flags=re.S)
+    if not mt:
+        die("gen_codec_dispatch: trait ChainAdapter not found")
+    trait = _strip_comments(mt.group(1))
+    result_methods = re.findall(r"fn (\w+)\s*\([^;]*?\)\s*->\s*Result<[^;]*?chain::Error>\s*;", trait, flags=re.S)
+    all_methods = re.findall(r"fn (\w+)\s*\(", trait)
+    convs = re.findall(r"impl From<([\w:]+)> for Error \{\s*fn from\(e: [\w:]+\) -> Error \{\s*Error::(\w+)\(e\)", types_rs)
+    if ("chain::Error", "Chain") not in convs or ("io::Error", "Connection") not in convs or ("ser::Error", "Serialization") not in convs:
+        die(f"gen_codec_dispatch: the From<..> for Error conversions changed: {convs}")
     out.append("/-- `Protocol::consume` (protocol.rs): (`Message` variant, adapter methods called, possible outcomes), source order -/")
     out.append("def consumeArms : List (String × List String × List String) :=\n  [" +
                ",\n   ".join(f'("{n}", {lean_str_list(c)}, {lean_str_list(o)})' for n, c, o in carms) + "]")
+    out.append("")
+
+    out.append("/-- every PATH through an arm of `Protocol::consume`, statements in execution order: (arm, [(branch conditions,")
+    out.append("adapter calls in execution order - a `?` suffix: the result goes through `?` -, other `?` points as class:callee, outcome)]) -/")
+    def _lp(p):
+        conds, calls, others, outc = p
+        esc = lambda x: x.replace("\\", "\\\\").replace('"', '\\"')
+        return f'({lean_str_list([esc(c) for c in conds])}, {lean_str_list(calls)}, {lean_str_list(others)}, "{outc}")'
+    out.append("def consumePaths : List (String × List (List String × List String × List String × String)) :=\n  [" +
+               ",\n   ".join(f'("{n}", [' + ",\n      ".join(_lp(p) for p in pl) + "])" for n, pl in cpaths) + "]")
+    out.append("/-- the `ChainAdapter` methods that return `Result<_, chain::Error>` (types.rs) -/")
+    out.append("def adapterResultMethods : List String := " + lean_str_list(result_methods))
+    out.append("def adapterMethods : List String := " + lean_str_list(all_methods))
+    out.append("/-- `impl From<X> for Error` (types.rs): what a `?` turns an error of type X into -/")
+    out.append("def errorConversions : List (String × String) := [" + ", ".join(f'("{a}", "{b}")' for a, b in convs) + "]")
     out.append("")
 
     # ---- Peer::send_* ------------------------------------------------------------------------------------
@@ -163,6 +488,32 @@ def generate(repo_root, die):
     out.append("/-- `Peer::send_*` (peer.rs): (function, `msg::Type` handed to `Peer::send`, consults `has_recv`, side effects) -/")
     out.append("def senders : List (String × String × Bool × List String) :=\n  [" +
                ",\n   ".join(f'("{n}", "{t}", {"true" if g else "false"}, {lean_str_list(e)})' for n, t, g, e in senders) + "]")
+    out.append("")
+
+    # ---- small decision functions: Peer::is_denied, resolve_peer_addr, negotiate_protocol_version -------------
+    m = re.search(r"pub fn is_denied\(config: &P2PConfig, peer_addr: PeerAddr\) -> bool \{\n(.*?)\n\t\}\n", peer, flags=re.S)
+    if not m:
+        die("gen_codec_dispatch: Peer::is_denied not found")
+    idb = _strip_log_macros(_strip_comments(m.group(1)))
+    ipaths = _bool_paths(_split_items(idb, die, "Peer::is_denied"), die, "Peer::is_denied")
+    out.append("/-- `Peer::is_denied` (peer.rs): every path, (branch conditions in order, result) -/")
+    out.append("def isDeniedPaths : List (List String × Bool) :=\n  [" +
+               ",\n   ".join(f'({lean_str_list(c)}, {"true" if v else "false"})' for c, v in ipaths) + "]")
+    m = re.search(r"fn resolve_peer_addr\(advertised: PeerAddr, conn: &TcpStream\) -> PeerAddr \{\s*let port = ([^;]+);\s*"
+                  r"if let Ok\(addr\) = conn\.peer_addr\(\) \{\s*PeerAddr\(SocketAddr::new\(([^,]+), ([^)]+)\)\)\s*\} else \{\s*(\w+)\s*\}\s*\}", hs)
+    if not m:
+        die("gen_codec_dispatch: resolve_peer_addr changed shape")
+    out.append("/-- `resolve_peer_addr` (handshake.rs): where the ip and the port come from when the socket knows its peer, and the fall-back -/")
+    out.append(f'def resolveParts : List (String × String) := [("port", "{m.group(1).strip()}"), ("ok.ip", "{m.group(2).strip()}"), ("ok.port", "{m.group(3).strip()}"), ("err", "{m.group(4)}")]')
+    m = re.search(r"fn negotiate_protocol_version\(&self, other: ProtocolVersion\) -> Result<ProtocolVersion, Error> \{\s*"
+                  r"let version = ([^;]+);\s*Ok\(version\)\s*\}", hs)
+    if not m:
+        die("gen_codec_dispatch: negotiate_protocol_version changed shape")
+    out.append("/-- `negotiate_protocol_version` (handshake.rs): the expression -/")
+    out.append(f'def negotiateExpr : String := "{m.group(1).strip()}"')
+    nu = re.findall(r"self\.negotiate_protocol_version\((\w+)\.version\)\?", hs)
+    out.append("/-- whose announced version it is applied to, in source order (accept: the Hand, initiate: the Shake) -/")
+    out.append("def negotiateArgs : List String := " + lean_str_list(nu))
     out.append("")
 
     # ---- handshake timeouts ------------------------------------------------------------------------------
